@@ -184,7 +184,7 @@ def run_case(case):
                             for nm, a, b_ in (("conc", c, rp[2]), ("flx", f, rp[3])):
                                 e = solve.relerr(a, b_[:, py : py + ny, px : px + nx], scale=float(np.max(np.abs(b_))) or 1.0)
                                 resid["padcrop"] = max(resid["padcrop"], e)
-                                if e > 1e-9:
+                                if not e <= 1e-9:
                                     viol.append({"what": "misregistered_under_halo", "tuple": tup, "field": nm, "rel": e, "padded": (nxe, nye)})
                     ref_c, ref_f, big = (rp[2], rp[3], True) if rp[0] == "ok" and rp[2].shape == (2, nye, nxe) else (None, None, False)
                     refull_c, refull_f = fullpad[2], fullpad[3]
@@ -199,7 +199,7 @@ def run_case(case):
                         A, B = np.fft.fft2(a), np.fft.fft2(b_)
                         e = float(np.max(np.abs((A - B)[:, mask]))) / (float(np.max(np.abs(B))) or 1.0)
                         resid["lowpass"] = max(resid["lowpass"], e)
-                        if e > 1e-9:
+                        if not e <= 1e-9:
                             viol.append({"what": "truncation_changes_component_inside_cutoff", "tuple": tup, "field": nm, "rel": e, "padded": (nxe, nye)})
                 if trunc or px or py or nx % 2 or ny % 2:
                     sigs.append("|".join(map(str, tup)))
@@ -253,7 +253,7 @@ def coords(case):
         X2, Y2 = X.reshape((-1, ny, nx)), Y.reshape((-1, ny, nx))
         e = max(float(np.max(np.abs(X2 - ex[None, None, :]))) / xmax, float(np.max(np.abs(Y2 - ey[None, :, None]))) / ymax)
         worst = max(worst, e)
-        if e > 1e-12:
+        if not e <= 1e-12:
             viol.append({"what": "output_coordinates", "tuple": tup, "rel": e})
         zz = np.asarray(z)[lv]
         if not np.array_equal(Z.reshape((-1, ny, nx))[:, 0, 0], np.atleast_1d(zz)):
